@@ -176,10 +176,11 @@ Proof.
   { replace (L2 + q) with ((L2 + q - 1) + 1) in HYlb by lia. rewrite pow10_succ in HYlb by lia. lia. }
   assert (HO2lb : 10 ^ (L2 - 1) <= O2).
   { replace (L2 + q - 1) with ((L2 - 1) + q) in HYlb' by lia. rewrite pow10_add in HYlb' by lia.
-    unfold Y in HYlb'. assert (10 ^ (L2 - 1) * 10 ^ q < (O2 + 1) * 10 ^ q) by lia.
-    assert (10 ^ (L2 - 1) < O2 + 1) by nia. lia. }
+    unfold Y in HYlb'. assert (Hq' : 10 ^ (L2 - 1) * 10 ^ q < (O2 + 1) * 10 ^ q).
+    { rewrite Z.mul_add_distr_r, Z.mul_1_l. clear - HYlb' HDr. lia. }
+    apply Z.mul_lt_mono_pos_r in Hq'; [|exact Pq]. clear - Hq'. lia. }
   assert (HYub : Y < 10 ^ (L2 + q)).
-  { rewrite pow10_add by lia. unfold Y. nia. }
+  { rewrite pow10_add by lia. unfold Y. clear - BO2 HDr Pq. nia. }
   assert (Hlead2 : exists d t, rev out2 = d :: t /\ d <> 0).
   { destruct (rev out2) as [|d t] eqn:Er2.
     - exfalso. apply (f_equal (@len Z)) in Er2. rewrite zlen_rev in Er2.
@@ -387,11 +388,11 @@ Proof.
   assert (Pnd1 : 0 < 10 ^ (nd - 1)) by (apply pow10_pos; lia).
   assert (Hlow : 10 ^ (j2 - 1) <= N * 2 ^ k).
   { destruct (Z.eq_dec n1 0) as [E0|N0].
-    - rewrite (Hz2 E0). nia.
+    - rewrite (Hz2 E0). clear - HNlb PK Pnd1. nia.
     - apply Hlb2. lia. }
   assert (Hup : N * 2 ^ k < 10 ^ j2).
   { rewrite <- Hv2. replace j2 with (L + z) by (unfold z; lia).
-    rewrite pow10_add by (unfold z; lia). nia. }
+    rewrite pow10_add by (unfold z; lia). clear - BO HLo2 Pz. nia. }
   assert (Ej2 : j2 = W0).
   { assert (j2 - 1 < W0) by (apply pow10_lt_inv; unfold W0 in *; lia).
     assert (W0 - 1 < j2) by (apply pow10_lt_inv; unfold W0 in *; lia). lia. }
@@ -405,8 +406,9 @@ Proof.
   assert (HOlb : 10 ^ (L - 1) <= dval_z out2).
   { assert (10 ^ (L - 1) * 10 ^ z <= N * 2 ^ k).
     { rewrite <- pow10_add by (unfold z; lia). replace (L - 1 + z) with (j2 - 1) by (unfold z; lia). exact Hlow. }
-    assert (10 ^ (L - 1) * 10 ^ z < (dval_z out2 + 1) * 10 ^ z) by lia.
-    assert (10 ^ (L - 1) < dval_z out2 + 1) by nia. lia. }
+    assert (Hq : 10 ^ (L - 1) * 10 ^ z < (dval_z out2 + 1) * 10 ^ z).
+    { rewrite Z.mul_add_distr_r, Z.mul_1_l. clear - H Hv2 HLo2. lia. }
+    apply Z.mul_lt_mono_pos_r in Hq; [|exact Pz]. clear - Hq. lia. }
   destruct out2 as [|d t] eqn:Eo2.
   { exfalso. change (dval_z []) with 0 in HOlb. pose proof (pow10_pos (L - 1) ltac:(lia)). lia. }
   assert (Hd : d <> 0).
